@@ -25,7 +25,7 @@ incremental = false
 OPT = [
     ("Oa", None, "oa_id", "u32", 11),
     ("TT<u8>", "TTa", "tt_id", "u8", 12),     # two aliased instantiations of one generic trait
-    ("Oc", None, "oc_id", "u32", 13),
+    ("OB", None, "ob_id", "u32", 13),         # sorts BEFORE `Oa` byte-wise, after it when case is ignored
     ("TT<u64>", "TTb", "tt_id", "u64", 14),
 ]
 MAND = [("M0", "m0_id", 1), ("M1", "m1_id", 2)]
@@ -158,7 +158,7 @@ static A: pbsupport::verifkit::alloc::Tracking = pbsupport::verifkit::alloc::Tra
 #[cglue_trait] pub trait M0 { fn m0_id(&self) -> u64; }
 #[cglue_trait] pub trait M1 { fn m1_id(&self) -> u64; }
 #[cglue_trait] pub trait Oa { fn oa_id(&self, v: u32) -> u64; }
-#[cglue_trait] pub trait Oc { fn oc_id(&self, v: u32) -> u64; }
+#[cglue_trait] pub trait OB { fn ob_id(&self, v: u32) -> u64; }
 #[cglue_trait] pub trait TT<T> { fn tt_id(&self, v: T) -> u64; }
 
 fn tok_drops(t: u32) -> u32 { pbsupport::verifkit::tok::drops(t) }
